@@ -78,6 +78,34 @@ Theorem C19_issuer_same : forall (r r' : router) (c : config) (q : request),
 Proof. exact issuer_same. Qed.
 Print Assumptions C19_issuer_same.
 
+(* ... and that for EVERY flow that hands out tokens - authorization code, refresh token, client
+   credentials, jwt-bearer, token exchange (access / refresh / ID token requested), device code, implicit
+   (id_token / id_token token) - on either router, for every client kind, issuer strategy and request:
+   the iss of the ID token and of a JWT access token is the issuer of the document served for that request *)
+Theorem C19_issuer_same_every_flow : forall (r r' : router) (c : config) (q : request) (k : client_kind) (jwt : bool)
+    (fl : flow) (id_iss at_iss : option string) (t : string),
+  flow_model r c q k jwt fl = FRIssued id_iss at_iss ->
+  (id_iss = Some t \/ at_iss = Some t) -> t = doc_issuer r' c q.
+Proof. exact issuer_same_every_flow. Qed.
+Print Assumptions C19_issuer_same_every_flow.
+
+(* not vacuously: a flow that is available does hand out an ID token and / or an access token, and they carry it *)
+Theorem C19_flow_carries_issuer : forall (r : router) (c : config) (q : request) (k : client_kind) (jwt : bool) (fl : flow),
+  flow_ok r c k fl = true ->
+  exists id_iss at_iss, flow_model r c q k jwt fl = FRIssued id_iss at_iss
+    /\ (has_id_token fl = true -> id_iss = Some (doc_issuer r c q))
+    /\ (has_access_token fl = true -> jwt = true -> at_iss = Some (doc_issuer r c q)).
+Proof. exact flow_carries_issuer. Qed.
+Print Assumptions C19_flow_carries_issuer.
+
+(* tokens are handed out only through grant types the document advertises (and the token endpoint handles) *)
+Theorem C19_flow_through_advertised_grant : forall (r : router) (c : config) (k : client_kind) (fl : flow),
+  flow_ok r c k fl = true ->
+  In (grant_of fl) (doc_grants_g c)
+  /\ (grant_of fl <> GImplicit -> dispatch r c (grant_of fl) = AHandled).
+Proof. exact flow_through_advertised_grant. Qed.
+Print Assumptions C19_flow_through_advertised_grant.
+
 (* StaticIssuer / ValidateIssuer accept exactly: non-empty, parseable, with a hostname, https (or
    http with the insecure opt-in), and no '?' and no '#' anywhere in the string *)
 Theorem C19_issuer_validation : forall (raw : string) (o : url_oracle) (insecure : bool),
